@@ -468,9 +468,19 @@ func joinOperator(v interface{}, operator string) (string, error) {
 
 			return "", fmt.Errorf("operator cannot have 0 operands")
 		}
+		if operator == " != " && len(arr) == 1 {
+			// a single operand is a logical negation, only two or more are joined with !=
+			ope, err := parseOperand(arr[0], true, false)
+			if err != nil {
+
+				return "", err
+			}
+
+			return "!(" + ope + ")", nil
+		}
 		ops := make([]string, len(arr))
 		for i := 0; i < len(arr); i++ {
-			ope, err := parseOperand(arr[i], false, operator == " != ")
+			ope, err := parseOperand(arr[i], false, false)
 			if err != nil {
 
 				return "", err
